@@ -30,7 +30,7 @@ TRUSTED = [
     "are refused with ValueError - asserted); a geometric domain must contain an integer (lower == upper == half-integer "
     "and lower == +inf / upper == -inf are not configurations the property can hold for); NaN inputs belong to C13",
     "'always returns' for the rejection samplers is a probability-one statement: the theorems say the loop returns the "
-    "first in-range draw as soon as a batch contains one; on the code every call is observed to return within 10 s",
+    "first in-range draw as soon as a batch contains one; on the code every call is observed to return within 6 s",
 ]
 UNPROVED = [
     "double rounding: that the float fold (modulo step + reflections on doubles) stays in [lower, upper] and stops is "
@@ -48,7 +48,7 @@ RULE = ("configurations: epsilon in {inf, 1, 0.1, 1e-4} u loguniform[1e-4,50], d
 MECH = dp.mechanisms
 INF = math.inf
 ONE_M = 1.0 - 2.0 ** -53
-TIMEOUT = 10.0
+TIMEOUT = 6.0
 
 
 # ------------------------------------------------------------------------------------------- infrastructure
@@ -152,10 +152,16 @@ def sig_prefix(mech):
             "Snapping": "snapping", "GeometricTruncated": "geometric-truncated", "GeometricFolded": "geometric-folded"}[mech]
 
 
+HANGS = {}
+MAX_HANGS = 3      # after this many observed hangs of one mechanism its remaining cases are skipped (each costs TIMEOUT)
+
+
 def direct_one(mech, cfg, value, rngspec):
     """the property on the real code for one call; returns (signature, what) or None, plus the output"""
     lo, hi = cfg["lower"], cfg["upper"]
     holder = {}
+    if HANGS.get(mech, 0) >= MAX_HANGS:
+        return None, None
 
     def call():
         m = build(mech, cfg, make_rng(rngspec))
@@ -168,6 +174,7 @@ def direct_one(mech, cfg, value, rngspec):
     if kind == "exhausted":
         return None, None
     if kind == "hang":
+        HANGS[mech] = HANGS.get(mech, 0) + 1
         m = holder.get("m")
         if mech == "LaplaceBoundedDomain":
             sc = getattr(m, "_scale", None)
@@ -181,8 +188,10 @@ def direct_one(mech, cfg, value, rngspec):
         e = out
         if isinstance(e, RecursionError):
             return ("C12:fold:recursion", f"{desc} raised RecursionError"), None
-        if isinstance(e, OverflowError):
-            return ("C12:geometric:overflow" if mech in INT_MECHS else f"C12:{p}:overflow", f"{desc} raised OverflowError: {e}"), None
+        if isinstance(e, OverflowError) or (mech in INT_MECHS and isinstance(e, ValueError) and "NaN to integer" in str(e)):
+            # int(inf) / int(nan): infinite or undefined noise reached the integer conversion
+            return ("C12:geometric:overflow" if mech in INT_MECHS else f"C12:{p}:overflow",
+                    f"{desc} raised {type(e).__name__}: {e}"), None
         return (f"C12:{p}:raises", f"{desc} raised {type(e).__name__}: {str(e)[:160]}"), None
     # a value was returned
     if mech in INT_MECHS:
@@ -193,6 +202,8 @@ def direct_one(mech, cfg, value, rngspec):
             return (f"C12:{p}:type", f"{desc} returned {out!r} of type {type(out).__name__}"), out
         if out != out:
             return (f"C12:{p}:nan", f"{desc} returned NaN"), out
+    if mech == "Snapping" and cfg["sens"] == 0 and out != clamp(value, lo, hi):
+        return ("C12:snapping:sens0", f"{desc} returned {out!r}, expected the input truncated to the bounds {clamp(value, lo, hi)!r}"), out
     if not (lo <= out <= hi):
         if mech == "Snapping":
             return ("C12:snapping:above-upper" if out > hi else "C12:snapping:below-lower",
@@ -424,7 +435,9 @@ def k_bounded_domain(ctx, r, n, lines, todo):
             m = build(mech, cfg, rng)
             holder["rng"], holder["m"] = rng, m
             return m.randomise(value)
-        kind, out = run_timed(call)
+        if HANGS.get(mech, 0) >= MAX_HANGS:
+            continue
+        kind, out = run_timed(call, 3.0)
         if kind in ("hang", "exc"):
             v, _ = direct_one(mech, cfg, value, spec)
             if v:
@@ -717,7 +730,7 @@ FIXED_DIRECT = [
 
 def s_bounded(ctx):
     r = ctx.fork("direct")
-    n = ctx.budget(350, 6000)
+    n = ctx.budget(1200, 12000)
     cases = [(m, dict(c, dk="fixed"), v, s) for m, c, v, s in FIXED_DIRECT]
     for mech in REAL_MECHS + INT_MECHS:
         for i in range(n if mech != "LaplaceBoundedDomain" else n // 2):
@@ -883,11 +896,20 @@ def sel_direct(case):
     raise KeyError(name)
 
 
+FIXED_SEL = [
+    # regression witnesses of fix 252d7c4: a uniform of exactly 0.0 selected a candidate of probability 0
+    {"mech": "Exponential", "eps": INF, "sens": 1.0, "utility": [0.0, 5.0], "candidates": None, "monotonic": False, "seed": 0, "u": 0.0},
+    {"mech": "Exponential", "eps": 1.0, "sens": 0.0, "utility": [0.0, 5.0], "candidates": ["a", "b"], "monotonic": False, "seed": 0, "u": 0.0},
+    {"mech": "ExponentialCategorical", "eps": INF, "value": "b", "seed": 0, "u": 0.0, "utility_list": [["a", "b", 1.0]]},
+    {"mech": "ExponentialHierarchical", "eps": INF, "hierarchy": ["A", "B", "C", "D"], "value": "C", "leaves": ["A", "B", "C", "D"], "seed": 0, "u": 0.0},
+]
+
+
 def s_selection(ctx):
     r = ctx.fork("selection")
-    n = ctx.budget(400, 8000)
+    n = ctx.budget(1500, 15000)
     for i in range(n):
-        case = sel_case(r)
+        case = FIXED_SEL[i] if i < len(FIXED_SEL) else sel_case(r)
         v = sel_direct(case)
         if v:
             ctx.violation(v[0], v[1], {"kind": "selection", "case": case})
@@ -904,9 +926,10 @@ def check(ctx):
 
 
 def _check(ctx):
+    HANGS.clear()
     r = ctx.fork("k")
     lines, todo = [], []
-    n = ctx.budget(300, 6000)
+    n = ctx.budget(1200, 12000)
     k_fold_truncate(ctx, r, n, lines, todo)
     k_laplace(ctx, r, "LaplaceTruncated", n, lines, todo)
     k_laplace(ctx, r, "LaplaceFolded", n, lines, todo)
